@@ -104,7 +104,7 @@ def classify(inst, parsed, rc, prop):
                 # (e.g. the arm of another operation) is unreachable, not vacuous
                 reachable = reach.get(r["kani_id"], "FAILURE") == "FAILURE"
                 out["covers"].append({"desc": r["desc"], "satisfied": sat, "reachable": reachable})
-                if not sat and reachable and r["desc"] not in inst["optional_covers"]:
+                if not sat and reachable and r["desc"] not in inst["optional_covers"] and not r["desc"].startswith("[VAC]"):
                     out["reasons"].append("cover not satisfiable (vacuous): " + r["desc"])
 
             continue
@@ -298,7 +298,8 @@ def _run(prop, tier, args, sel, root, log, seed, t_start, propdef):
         for name, r, rep in confirmed:
             print("VIOLATION property=%s replay=%s" % (prop, rep["path"]))
             print("    harness %s: %s" % (name, r["desc"]))
-            print("    values: %s" % (rep.get("values_named") or rep.get("values"),))
+            vn = rep.get("values_named") or []
+            print("    %d solver-chosen values replayed natively (%s ...)" % (len(vn), ", ".join(vn[:8])))
         rc_final = 1
     elif violations and not unconfirmed:
         print("INCONCLUSIVE property=%s: %d failing check(s) were not replayed" % (prop, len(violations)))
@@ -412,7 +413,7 @@ def write_evidence(prop, tier, seed, sel, results, t_start, violations=0, known_
         "wall_s": round(time.time() - t_start, 1),
         "violations": violations,
     }
-    if prop == "ALL" or PARTIAL_RUN:
+    if prop == "ALL" or PARTIAL_RUN or os.environ.get("KV_NO_EVIDENCE"):
         return
     path = os.path.join(VERIF, "evidence", prop + ".json")
     tmp = path + ".tmp"
